@@ -409,3 +409,4 @@ contract(SC + '__setitem__', name='diagnostic:__setitem__[cached id] breaks the 
          doc='after a store under an already cached id either two live cells hold the id, or (the old cell was the '
              'oldest and the list was full) the new cell holds the id but the dict entry is gone: in both cases no '
              'id -> cell correspondence exists, i.e. R2/R3 are unsatisfiable for every ghost map')
+REG.xchecks.append({'prop': 'C18', 'module': 'specs.basedb', 'name': 'verifierdb_map', 'function': DB + 'keys'})
